@@ -421,12 +421,24 @@ func TestPayloadsCarryEverySeriesOnce(t *testing.T) {
 			hasPct = hasPct || len(tm.Percentiles) > 0
 		})
 		masked := c.mask != (gostatsd.TimerSubtypes{})
-		for _, name := range httpChecked {
+		// the flusher hands one and the same map to every configured backend, one after the other: in half of the cases the
+		// backends here get one shared map too, in a drawn order (what one backend does to it, the next one sees)
+		order := append([]string(nil), httpChecked...)
+		var shared *gostatsd.MetricMap
+		if rapid.Bool().Draw(t, "backends-share-the-flushed-map") {
+			shared = gen.CopyMapSpare(mm)
+			order = rapid.Permutation(order).Draw(t, "backend-order")
+		}
+		for _, name := range order {
 			kit, err := bk.New(variant(name), bk.Options{Batch: c.batch, Compress: c.compress, Disabled: c.mask, ResourceKeys: c.resourceKeys})
 			if err != nil {
 				t.Fatalf("%v", err)
 			}
-			send(t, kit, gen.CopyMapSpare(mm))
+			if shared != nil {
+				send(t, kit, shared)
+			} else {
+				send(t, kit, gen.CopyMapSpare(mm))
+			}
 			attempts := kit.RT.Attempts()
 			kit.Close()
 			if len(attempts) >= 2 {
